@@ -563,6 +563,10 @@ func mixCase(s string) string {
 // StorageCase is a history of Add calls and probes.
 type StorageCase struct {
 	Ops []StorageOp `json:"ops"`
+	// SharedBacking: the Names slices of all records are sub-slices of one
+	// array (with spare capacity behind each), as when a caller cuts one
+	// strings.Fields result into records.
+	SharedBacking bool `json:"shared_backing,omitempty"`
 }
 
 // StorageOp is one Add (Names may be empty) followed by probes of everything.
@@ -590,6 +594,30 @@ func checkStorage(c StorageCase) error {
 	twin, _ := hostsfile.NewDefaultStorage() // same history without the nameless records
 	m := newStorageModel()
 	dupSpelling, dupAddr, nameless := false, false, false
+	// Build the records up front.  With SharedBacking all Names live in one
+	// backing array, each record's slice being followed by the next one's.
+	recs := make([]*hostsfile.Record, len(c.Ops))
+	var backing []string
+	for _, op := range c.Ops {
+		backing = append(backing, op.Names...)
+	}
+	off := 0
+	for i, op := range c.Ops {
+		names := slices.Clone(op.Names)
+		if c.SharedBacking {
+			names = backing[off : off+len(op.Names)] // capacity reaches into the neighbours
+			off += len(op.Names)
+		}
+		recs[i] = &hostsfile.Record{Addr: op.Addr, Names: names, Source: "src"}
+	}
+	checkRecords := func(step int) error {
+		for j, r := range recs {
+			if r.Addr != c.Ops[j].Addr || r.Source != "src" || !slices.Equal(r.Names, c.Ops[j].Names) {
+				return fmt.Errorf("after op %d: Add modified a caller's record: record #%d is now {%v %q}, it was built as {%v %q}", step, j, r.Addr, r.Names, c.Ops[j].Addr, c.Ops[j].Names)
+			}
+		}
+		return nil
+	}
 	for i, op := range c.Ops {
 		if len(op.Names) == 0 {
 			nameless = true
@@ -606,7 +634,10 @@ func checkStorage(c StorageCase) error {
 				}
 			}
 		}
-		st.Add(&hostsfile.Record{Addr: op.Addr, Names: slices.Clone(op.Names), Source: "src"})
+		st.Add(recs[i])
+		if err = checkRecords(i); err != nil {
+			return err
+		}
 		m.add(op.Addr, op.Names)
 		if err = m.compare(st); err != nil {
 			return fmt.Errorf("after op %d (Add %v %q): %w", i, op.Addr, op.Names, err)
@@ -634,6 +665,9 @@ func checkStorage(c StorageCase) error {
 	if nameless {
 		vp.Class("storage:nameless-record")
 	}
+	if c.SharedBacking {
+		vp.Class("storage:records-sharing-one-backing-array")
+	}
 	if dupSpelling || dupAddr {
 		vp.NonTrivialStr("c08.storage", fmt.Sprint(c.Ops))
 		vp.Sample("storage:nontrivial", c)
@@ -645,7 +679,7 @@ var storageProp = vp.Register(vp.Prop[StorageCase]{
 	Kind: "c08.storage", Base: 15000,
 	Gen: func(t *rapid.T) StorageCase {
 		n := rapid.IntRange(0, 14).Draw(t, "ops")
-		c := StorageCase{}
+		c := StorageCase{SharedBacking: rapid.IntRange(0, 2).Draw(t, "shared") == 0}
 		for i := 0; i < n; i++ {
 			c.Ops = append(c.Ops, StorageOp{
 				Addr:  rapid.SampledFrom(addrPool).Draw(t, "addr"),
